@@ -32,6 +32,7 @@ type Obligation struct {
 	Detail  string
 	SmtSize int
 	scripts []string          // closed scripts (position lemmas); each must be unsat
+	script  *smtScript        // declarations of the verification unit this obligation belongs to
 	Inputs  map[string]string // values of the function's inputs in the counterexample
 	Trace   []string          // oracle decisions (write failures, select arms) along the failing path
 	inputTerms map[string]string
@@ -77,6 +78,7 @@ type Exec struct {
 	inputTerms    map[string]string
 	preLocks      int
 	atom          *atomicSpec
+	assertSeen    map[string]bool
 	tagTypes      map[string]types.Type
 }
 
